@@ -347,6 +347,16 @@ class SeqMapPrims:
                     return [(("ret", "insert-old", (), len(path.events)), path)]
                 if short == "entry" and len(args) == 2:
                     return [(("mapentry", M, self.key(I, path, args[1])), path)]
+                if short in ("index", "index_mut") and len(args) == 2:
+                    # map[&key]: the entry, or a panic when the key is missing
+                    k = self.key(I, path, args[1])
+                    outs = []
+                    for pres, p in self.presence(path, M, k):
+                        if pres:
+                            outs.append((("ref", (self.root(M, k), ()), short == "index_mut"), p))
+                        else:
+                            outs.append(("panic", "X", "map index with a missing key", p))
+                    return outs
                 self.unmodelled.append(name)
                 return None
         if args and args[0][0] == "mapentry":
